@@ -170,66 +170,7 @@ func passThroughOne(c *core.Ctx, sp passSpec) {
 	}
 	P := f.Params[idx]
 
-	// values that are P re-wrapped
-	var unchanged func(v ssa.Value, depth int) bool
-	unchanged = func(v ssa.Value, depth int) bool {
-		if v == ssa.Value(P) {
-			return true
-		}
-		if depth > 8 || v == nil {
-			return false
-		}
-		switch x := v.(type) {
-		case *ssa.MakeInterface:
-			return unchanged(x.X, depth+1)
-		case *ssa.ChangeInterface:
-			return unchanged(x.X, depth+1)
-		case *ssa.ChangeType:
-			return unchanged(x.X, depth+1)
-		case *ssa.Convert:
-			return sameContentConversion(x) && unchanged(x.X, depth+1)
-		case *ssa.Slice:
-			if x.High != nil || x.Max != nil {
-				return false
-			}
-			if x.Low != nil {
-				if k, isK := core.ConstInt(x.Low); !isK || k != 0 {
-					return false
-				}
-			}
-			return unchanged(x.X, depth+1)
-		case *ssa.Phi:
-			for _, e := range x.Edges {
-				if !unchanged(e, depth+1) {
-					return false
-				}
-			}
-			return len(x.Edges) > 0
-		case *ssa.UnOp:
-			if x.Op != token.MUL {
-				return false
-			}
-			a, ok := x.X.(*ssa.Alloc)
-			return ok && allocHoldsOnly(a, func(s ssa.Value) bool { return unchanged(s, depth+1) })
-		case *ssa.Alloc:
-			// &local handed on, the local holding P
-			return allocHoldsOnly(x, func(s ssa.Value) bool { return unchanged(s, depth+1) })
-		case *ssa.Call:
-			if g := x.Call.StaticCallee(); g != nil {
-				switch core.QualName(g) {
-				case "bytes.NewReader", "bytes.NewBuffer", "bytes.NewBufferString", "strings.NewReader", "bufio.NewReader":
-					return len(x.Call.Args) > 0 && unchanged(x.Call.Args[0], depth+1)
-				}
-			}
-			if b, ok := x.Call.Value.(*ssa.Builtin); ok && b.Name() == "append" && len(x.Call.Args) == 2 {
-				// append([]T(nil), P...) / append([]T{}, P...): a copy
-				if emptySlice(x.Call.Args[0]) {
-					return unchanged(x.Call.Args[1], depth+1)
-				}
-			}
-		}
-		return false
-	}
+	unchanged := func(v ssa.Value, depth int) bool { return unchangedValue(v, P, depth) }
 	// values computed from P (not through module calls, not through len/cap)
 	memo := map[ssa.Value]bool{}
 	var depends func(v ssa.Value, depth int) bool
@@ -430,6 +371,79 @@ func passThroughOne(c *core.Ctx, sp passSpec) {
 	default:
 		c.OK(key, f.Pos(), "%s (%d sink(s) receive it unchanged)", sp.why, received)
 	}
+}
+
+// unchangedValue: v is P re-wrapped — P itself, converted to an interface, string <-> []byte, sliced in full ( P[:], P[:len(P)] ),
+// copied ( append([]T(nil), P...) ), read through a bytes/strings reader, or held by a local variable that holds nothing else.
+func unchangedValue(v ssa.Value, P ssa.Value, depth int) bool {
+	unchanged := func(x ssa.Value, d int) bool { return unchangedValue(x, P, d) }
+	if v == ssa.Value(P) {
+		return true
+	}
+	if depth > 8 || v == nil {
+		return false
+	}
+	switch x := v.(type) {
+	case *ssa.MakeInterface:
+		return unchanged(x.X, depth+1)
+	case *ssa.ChangeInterface:
+		return unchanged(x.X, depth+1)
+	case *ssa.ChangeType:
+		return unchanged(x.X, depth+1)
+	case *ssa.Convert:
+		return sameContentConversion(x) && unchanged(x.X, depth+1)
+	case *ssa.Slice:
+		if x.Max != nil {
+			return false
+		}
+		if x.High != nil {
+			// P[:len(P)] is P
+			hc, isCall := core.StripConv(x.High).(*ssa.Call)
+			if !isCall {
+				return false
+			}
+			bi, isB := hc.Call.Value.(*ssa.Builtin)
+			if !isB || bi.Name() != "len" || !unchanged(hc.Call.Args[0], depth+1) {
+				return false
+			}
+		}
+		if x.Low != nil {
+			if k, isK := core.ConstInt(x.Low); !isK || k != 0 {
+				return false
+			}
+		}
+		return unchanged(x.X, depth+1)
+	case *ssa.Phi:
+		for _, e := range x.Edges {
+			if !unchanged(e, depth+1) {
+				return false
+			}
+		}
+		return len(x.Edges) > 0
+	case *ssa.UnOp:
+		if x.Op != token.MUL {
+			return false
+		}
+		a, ok := x.X.(*ssa.Alloc)
+		return ok && allocHoldsOnly(a, func(s ssa.Value) bool { return unchanged(s, depth+1) })
+	case *ssa.Alloc:
+		// &local handed on, the local holding P
+		return allocHoldsOnly(x, func(s ssa.Value) bool { return unchanged(s, depth+1) })
+	case *ssa.Call:
+		if g := x.Call.StaticCallee(); g != nil {
+			switch core.QualName(g) {
+			case "bytes.NewReader", "bytes.NewBuffer", "bytes.NewBufferString", "strings.NewReader", "bufio.NewReader":
+				return len(x.Call.Args) > 0 && unchanged(x.Call.Args[0], depth+1)
+			}
+		}
+		if b, ok := x.Call.Value.(*ssa.Builtin); ok && b.Name() == "append" && len(x.Call.Args) == 2 {
+			// append([]T(nil), P...) / append([]T{}, P...): a copy
+			if emptySlice(x.Call.Args[0]) {
+				return unchanged(x.Call.Args[1], depth+1)
+			}
+		}
+	}
+	return false
 }
 
 // valueTransformer: a function outside the module whose result is a changed rendering of its argument.
